@@ -17,7 +17,7 @@ from .shims import FACT, POWR
 from .symx import Ctx, NeedsBound, SymNum, Unsupported, RV, frac_of
 from .trees import kind
 
-MAX_UNFOLD = 48
+MAX_UNFOLD = 128
 
 
 class Undefined(Exception):
@@ -157,7 +157,7 @@ def powr_axioms(*terms: Any) -> List[Any]:
     out: List[Any] = []
     for a in apps:
         b, e = a.arg(0), a.arg(1)
-        for n in range(-2, 5):
+        for n in range(-12, 13):
             val = _ipow(b, n) if n >= 0 else 1 / _ipow(b, -n)
             out.append(z3.Implies(e == n, a == val))
     return out
